@@ -46,10 +46,38 @@ func ruleC01_1(c *Ctx) {
 				"dominated by nil-error edge of "+fname(e.guardFn),
 				"call is reachable without a successful "+fname(e.guardFn)+"(env, keys): the layout / keys / links are used before the layout signature is verified")
 		}
+		c.helperObligations(R, e, e.guard, fname(e.guardFn), nil)
 		for _, r := range c.nilErrReturns(e.f) {
 			c.check(c.okCallAt(e.guard, r.Block()), R, fn, "success return", instrPos(r),
 				"dominated by nil-error edge of "+fname(e.guardFn),
 				"a return with possibly nil error is reachable without a successful "+fname(e.guardFn)+"(env, keys)")
+		}
+	}
+}
+
+// helperObligations: the calls made inside unexported helpers that an entry point calls (the shared tail of the two
+// entry points, an extracted stage, ...) run exactly where the helper's call site runs: each gets an obligation that is
+// discharged by the guard at the call site; a helper that is also called from outside the entry points is reported.
+func (c *Ctx) helperObligations(R string, e entry, guard ssa.CallInstruction, guardName string, skip func(ssa.CallInstruction) bool) {
+	fn := fname(e.f)
+	for _, s := range c.trustingCalls(e) {
+		if s == guard || !c.isStageHelper(s.Common().StaticCallee()) {
+			continue
+		}
+		inner, helpers := c.helperSinks(s)
+		okSite := c.okCallAt(guard, s.Block())
+		for _, in := range inner {
+			if skip != nil && skip(in) {
+				continue
+			}
+			c.check(okSite, R, fn, "sink call "+calleeName(in)+" inside helper "+fname(in.Parent()), in.Pos(),
+				"the helper is called only where "+guardName+" has returned nil",
+				"call is reachable without a successful "+guardName+": the helper "+fname(in.Parent())+" is called before the check")
+		}
+		for _, h := range helpers {
+			fc := c.foreignCallers(h)
+			c.check(len(fc) == 0, R, fname(h), "helper is called from verification entry points only", h.Pos(), "callers are entry points / their helpers",
+				"the pipeline helper "+fname(h)+" is also called from "+strings.Join(fc, ", ")+", where "+guardName+" does not precede it")
 		}
 	}
 }
@@ -59,15 +87,28 @@ func ruleC01_2(c *Ctx) {
 	for _, e := range c.entryPoints() {
 		fn := fname(e.f)
 		n := 0
-		for _, call := range allCalls(e.f) {
-			for i, a := range callArgs(call) {
-				if !isLayoutType(a.Type()) {
-					continue
+		frames := []*ssa.Function{e.f}
+		for _, s := range c.trustingCalls(e) {
+			if c.isStageHelper(s.Common().StaticCallee()) {
+				_, hs := c.helperSinks(s)
+				frames = append(frames, hs...)
+			}
+		}
+		for _, fr := range frames {
+			for _, call := range allCalls(fr) {
+				for i, a := range callArgs(call) {
+					if !isLayoutType(a.Type()) {
+						continue
+					}
+					n++
+					kind, detail := c.layoutValue(e, a, call, 0)
+					where := ""
+					if fr != e.f {
+						where = " in helper " + fname(fr)
+					}
+					c.check(kind != "", R, fn, fmt.Sprintf("layout argument %d of %s%s", i, calleeName(call), where), call.Pos(), kind+": "+detail,
+						"the Layout passed here is not the payload of the verified Metadata parameter: "+detail)
 				}
-				n++
-				kind, detail := c.layoutValue(e, a, call, 0)
-				c.check(kind != "", R, fn, fmt.Sprintf("layout argument %d of %s", i, calleeName(call)), call.Pos(), kind+": "+detail,
-					"the Layout passed here is not the payload of the verified Metadata parameter: "+detail)
 			}
 		}
 		// the comma-ok assertion must fail verification when the payload is not a Layout
